@@ -5,6 +5,7 @@
 From Coq Require Import ZArith NArith List Bool.
 From FR Require Import Dec Types Bank Match Step Genesis Model Spec Checkers.
 From FR.Proofs Require Import InvDefs Chk09.
+From FR.Proofs Require ChkLive09.
 From FR.Properties Require C09_release.
 Import ListNotations.
 Open Scope Z_scope.
@@ -21,6 +22,13 @@ Print Assumptions C09_checker_settlement.
 Theorem C09_checker_release : forall s o, Inv s -> st_xfers s = [] -> c09_release_part (trans_of s o) = true.
 Proof. exact c09_release_trans. Qed.
 Print Assumptions C09_checker_release.
+
+(* the checker the driver evaluates for C09: c09_ok and c09_live (a block at or after a release time fails, while the
+   instalment is due, only when a listener vetoes - otherwise the instalment would not be paid "in the first block at
+   or after its release time") *)
+Theorem C09_all_checker : forall s o, Inv s -> oracle_ok s o -> c09_all (model_trans s o) = true.
+Proof. exact ChkLive09.c09_all_model. Qed.
+Print Assumptions C09_all_checker.
 
 Theorem C09_checker_parts : forall t, c09_ok t = c09_settle_part t && c09_release_part t.
 Proof. exact c09_ok_parts. Qed.
